@@ -399,6 +399,23 @@ func c15Processor(c *Check, P string, outer, C *ssa.Function, kind string) {
 	if kind == "command" {
 		c.Floor(P+".O3", "command: test of AckCommandHandlingErrors", len(ackErrTrue), 1)
 	}
+	// the processor refuses a message only for a reason of the message's own handling: Unmarshal, the handler (or the
+	// hook around it) failed, or — for events — nobody handles it and AckOnUnknownEvent is off
+	{
+		var srcs []ErrSource
+		for _, cl := range CallsIn(C) {
+			if _, isCall := cl.(*ssa.Call); !isCall {
+				continue
+			}
+			sig := cl.Common().Signature()
+			if n := sig.Results().Len(); n > 0 && IsErrorType(sig.Results().At(n-1).Type()) {
+				if cal := CalleeFn(cl.Common()); cal == nil || cal.Pkg == C.Pkg {
+					srcs = append(srcs, ErrSource{cl, n - 1})
+				}
+			}
+		}
+		ErrorsOnlyFrom(c, P+".O3", "PROCESSOR-FAILS-ONLY-ON-HANDLING-FAILURE", C, srcs, ackUnkFalse, "the "+kind+" processor returns an error (⇒ Nack) only when decoding or handling this message failed, or for an unhandled event with AckOnUnknownEvent off — a message of another kind (other name, no name) is not an error")
+	}
 
 	// O2 unknown policy
 	switch kind {
